@@ -1,5 +1,8 @@
 use std::fmt::Display;
 
+#[cfg(anthem_verif)]
+use crate::verif::sim::println;
+
 #[derive(Debug, Eq, PartialEq)]
 pub struct WithWarnings<D, W> {
     pub data: D,
